@@ -44,7 +44,8 @@ pub struct Case {
     pub pollute: bool,
     /// the call sequence issued against each fitted forest: 0 = predict(training rows + queries),
     /// 1 = predict_oob(training rows) (skipped when keep_samples is off), 2 = predict(a matrix of the
-    /// training matrix's shape but different content: the training rows in reverse order, shifted)
+    /// training matrix's shape but different content: the training rows in reverse order, shifted),
+    /// 3 = predict(single-row matrix), 4 = predict(training rows stacked twice)
     #[serde(default)]
     pub ops: Vec<u8>,
     pub kind: String,
@@ -74,6 +75,8 @@ struct FitOut {
     pred: Vec<f64>,
     oob: Option<Vec<f64>>,
     alt: Option<Vec<f64>>,
+    single: Option<Vec<f64>>,
+    tall: Option<Vec<f64>>,
     repeat_mismatch: Option<String>,
     calls: u64,
     words_consumed: Option<usize>,
@@ -88,7 +91,7 @@ fn fit_once(case: &Case, ambient: &Option<TapeSpec>) -> (FitOut, Option<Box<dyn 
     let qm = mat(&q);
     let guard = ambient.as_ref().map(TapeGuard::install);
     let p = &case.params;
-    let mut out = FitOut { bytes: vec![], pred: vec![], oob: None, alt: None, repeat_mismatch: None, calls: 0, words_consumed: None, value: Value::Null, err: None };
+    let mut out = FitOut { bytes: vec![], pred: vec![], oob: None, alt: None, single: None, tall: None, repeat_mismatch: None, calls: 0, words_consumed: None, value: Value::Null, err: None };
     let mut model_box: Option<Box<dyn std::any::Any + Send>> = None;
     if case.task == "clf" {
         let params = RandomForestClassifierParameters {
@@ -167,9 +170,15 @@ fn run_ops(case: &Case, out: &mut FitOut, x: &DenseMatrix<f64>, qm: &DenseMatrix
         let r = match op {
             0 => guarded(|| predict(qm)),
             1 => guarded(|| predict_oob(x)),
-            _ => guarded(|| predict(&alt)),
+            2 => guarded(|| predict(&alt)),
+            3 => guarded(|| predict(&mat(&case.x[0..1]))),
+            _ => {
+                let mut t = case.x.clone();
+                t.extend(case.x.iter().cloned());
+                guarded(|| predict(&mat(&t)))
+            }
         };
-        let name = ["predict", "predict_oob", "predict(other matrix of the training shape)"][(*op).min(2) as usize];
+        let name = ["predict", "predict_oob", "predict(other matrix of the training shape)", "predict(single-row matrix)", "predict(training rows stacked twice)"][(*op).min(4) as usize];
         let v = match r {
             Ok(Ok(v)) => v,
             Ok(Err(e)) => {
@@ -190,7 +199,9 @@ fn run_ops(case: &Case, out: &mut FitOut, x: &DenseMatrix<f64>, qm: &DenseMatrix
                 }
             }
             1 => out.oob.clone(),
-            _ => out.alt.clone(),
+            2 => out.alt.clone(),
+            3 => out.single.clone(),
+            _ => out.tall.clone(),
         };
         match first {
             Some(f) => {
@@ -208,7 +219,9 @@ fn run_ops(case: &Case, out: &mut FitOut, x: &DenseMatrix<f64>, qm: &DenseMatrix
                     seen_pred = true;
                 }
                 1 => out.oob = Some(v),
-                _ => out.alt = Some(v),
+                2 => out.alt = Some(v),
+                3 => out.single = Some(v),
+                _ => out.tall = Some(v),
             },
         }
     }
@@ -356,6 +369,8 @@ impl C06 {
         } else if bits(&a.pred) != bits(&b.pred)
             || a.oob.as_ref().map(|v| bits(v)) != b.oob.as_ref().map(|v| bits(v))
             || a.alt.as_ref().map(|v| bits(v)) != b.alt.as_ref().map(|v| bits(v))
+            || a.single.as_ref().map(|v| bits(v)) != b.single.as_ref().map(|v| bits(v))
+            || a.tall.as_ref().map(|v| bits(v)) != b.tall.as_ref().map(|v| bits(v))
         {
             rep.fail("irreproducible", "same-model-different-predictions", format!("{}: twins are byte-identical but predict differently", ctx));
         }
@@ -448,20 +463,27 @@ impl C06 {
         let all: Vec<usize> = (0..member.len()).collect();
         // forest answers to judge: predict(q) followed, when issued, by predict(other matrix)
         let q = q_all;
-        let mut a_pred_all = a.pred.clone();
-        let judged = if let Some(alt) = &a.alt {
-            a_pred_all.extend(alt.iter().cloned());
-            q.len()
-        } else {
-            nq
-        };
-        let pred_ok_len = a.pred.len() == nq && a.alt.as_ref().map(|v| v.len() == n).unwrap_or(true);
-        let a_pred = a_pred_all;
+        // (forest answer, row of `q` whose member-tree predictions it must aggregate)
+        let mut to_judge: Vec<(f64, usize)> = a.pred.iter().cloned().enumerate().map(|(i, v)| (v, i)).collect();
+        if let Some(alt) = &a.alt {
+            to_judge.extend(alt.iter().cloned().enumerate().map(|(i, v)| (v, nq + i)));
+        }
+        if let Some(sg) = &a.single {
+            to_judge.extend(sg.iter().cloned().map(|v| (v, 0)));
+        }
+        if let Some(tl) = &a.tall {
+            to_judge.extend(tl.iter().cloned().enumerate().map(|(i, v)| (v, i % n)));
+        }
+        let pred_ok_len = a.pred.len() == nq
+            && a.alt.as_ref().map(|v| v.len() == n).unwrap_or(true)
+            && a.single.as_ref().map(|v| v.len() == 1).unwrap_or(true)
+            && a.tall.as_ref().map(|v| v.len() == 2 * n).unwrap_or(true);
         if pred_ok_len && !member.is_empty() && !a.pred.is_empty() {
-            for i in 0..judged {
+            for (got_v, i) in to_judge.iter().cloned() {
+                let a_pred = |_: usize| got_v;
                 let (votes, mean) = agg(&all, i);
                 if case.task == "clf" {
-                    let got = a_pred[i];
+                    let got = a_pred(i);
                     let maxv = votes.iter().map(|e| e.1).max().unwrap_or(0);
                     match votes.iter().find(|e| e.0 == got) {
                         None => {
@@ -481,20 +503,20 @@ impl C06 {
                         break;
                     }
                 } else {
-                    let err = (a_pred[i] - mean).abs();
+                    let err = (a_pred(i) - mean).abs();
                     rep.max("reg_mean_err_rel", err / yscale);
                     if !(err <= 1e-12 * yscale) {
-                        rep.fail("not-mean", "forest-predict", format!("{}: predict returned {:e} for row {:?}; the mean of the member trees is {:e}", ctx, a_pred[i], q[i], mean));
+                        rep.fail("not-mean", "forest-predict", format!("{}: predict returned {:e} for row {:?}; the mean of the member trees is {:e}", ctx, a_pred(i), q[i], mean));
                         break;
                     }
-                    if !(a_pred[i] >= ymin - 1e-9 * yscale && a_pred[i] <= ymax + 1e-9 * yscale) {
-                        rep.fail("out-of-range", "forest-predict", format!("{}: prediction {:e} for row {:?} is outside the target range [{:e}, {:e}]", ctx, a_pred[i], q[i], ymin, ymax));
+                    if !(a_pred(i) >= ymin - 1e-9 * yscale && a_pred(i) <= ymax + 1e-9 * yscale) {
+                        rep.fail("out-of-range", "forest-predict", format!("{}: prediction {:e} for row {:?} is outside the target range [{:e}, {:e}]", ctx, a_pred(i), q[i], ymin, ymax));
                         break;
                     }
                 }
             }
         } else if !pred_ok_len {
-            rep.fail("shape", "forest-predict", format!("{}: {} predictions for {} rows (other matrix: {:?} for {})", ctx, a.pred.len(), nq, a.alt.as_ref().map(|v| v.len()), n));
+            rep.fail("shape", "forest-predict", format!("{}: {} predictions for {} rows (other matrix: {:?} for {}, single-row matrix: {:?}, stacked matrix: {:?} for {})", ctx, a.pred.len(), nq, a.alt.as_ref().map(|v| v.len()), n, a.single.as_ref().map(|v| v.len()), a.tall.as_ref().map(|v| v.len()), 2 * n));
         }
         // ---- 4. out-of-bag history
         let mut rows_with_oob = 0usize;
@@ -665,7 +687,7 @@ fn gen_case(batch: &str, _index: u64, seed: u64) -> Case {
     let mut ops: Vec<u8> = vec![0];
     let extra = pr.usize_in(1, 5);
     for _ in 0..extra {
-        ops.push(pr.below(3) as u8);
+        ops.push(pr.below(5) as u8);
     }
     pr.shuffle(&mut ops);
     Case { task: task.into(), x, y, params, queries, ambient_a, ambient_b, pollute: pr.chance(0.5), ops, kind: kind.into() }
